@@ -314,8 +314,7 @@ class PilotManager(rpu.ClientComponent):
 
                 # we got the state update from the state callback - don't
                 # publish it again
-                if not self._update_pilot(thing, publish=False):
-                    return False
+                self._update_pilot(thing, publish=False)
 
         return True
 
